@@ -17,6 +17,7 @@ import Drv.IR
 import Drv.Macro
 import Drv.Conv
 import Drv.Quasigo
+import Drv.SrcLoad
 /-!
 Line-protocol driver: one operation per line on stdin, one canonical answer line on stdout.
 Every engine exports `handle : List String → Option String` answering only its own ops;
@@ -43,7 +44,8 @@ def handlers : List (List String → Option String) := [
   Drv.IRPrint.handle,
   Drv.MacroE.handle,
   Drv.ConvE.handle,
-  Drv.Quasigo.handle
+  Drv.Quasigo.handle,
+  Drv.SrcLoadD.handle
 ]
 
 def dispatch (fs : List String) : Option String :=
